@@ -20,7 +20,7 @@ ANCHORS = ["decaylanguage.decay.decay:DecayChain.to_string", "decaylanguage.deca
            "decaylanguage.utils.utilities:DescriptorFormat.format_descriptor"]
 WORKERS = {"quick": 4, "thorough": 16}
 WTESTS = {"groups": ['to_string'], "tests": ['tests/decay', 'tests/utils']}
-REQUIRED = {"sub-decay-without-daughters": 10, "depth>=3": 50, "name-with-paren": 50, "name-with-quote-or-sign": 50, "repeated-subdecay": 50, "orders-compared": 500, "queried-before-to_string": 50, "rendered-before-inside-after-block": 50, "context-object-re-entered-inside-its-block": 20, "rejected-format-request-before-rendering": 20, "block-left-through-an-exception": 20,
+REQUIRED = {"sub-decay-without-daughters": 10, "depth>=3": 50, "name-with-paren": 50, "name-with-quote-or-sign": 50, "repeated-subdecay": 50, "orders-compared": 500, "queried-before-to_string": 50, "rendered-before-inside-after-block": 50, "context-object-re-entered-inside-its-block": 20, "rejected-format-request-before-rendering": 20, "block-left-through-an-exception": 20, "format-through-a-subclass": 20,
             **{f"pattern-pair-{i}": 20 for i in range(8)}, "C13.to_string.reads_back": 500}
 EXHAUSTIVE_NOTE = "tree shapes <= 5 (quick) / 6 (thorough) decaying particles enumerated with multiplicities 1..2; all daughter orders for small chains"
 ASSUMPTIONS = ["names contain no blanks and have balanced parentheses (all real particle names do)", "brackets of the pattern family do not occur in names"]
@@ -40,10 +40,38 @@ PATTERNS = [
 _seen: dict = {}
 
 
-def build(types, m, order, fs_orders):
-    from decaylanguage import DecayChain, DecayMode  # noqa: PLC0415
+_built = [0]
+_preset = []
 
-    return DecayChain(m, {k: DecayMode(types[k][0], fs_orders.get(k, types[k][1]), model="PHSP") for k in order})
+
+def _preset_class():
+    if not _preset:
+        from decaylanguage.utils import DescriptorFormat  # noqa: PLC0415
+
+        class Preset(DescriptorFormat):
+            """what a user writes to keep a house style: a subclass that only forwards its two patterns"""
+
+            def __init__(self, top, sub):
+                super().__init__(top, sub)
+
+        _preset.append(Preset)
+    return _preset[0]
+
+
+def build(types, m, order, fs_orders):
+    from decaylanguage import DaughtersDict, DecayChain, DecayMode  # noqa: PLC0415
+
+    # every second chain gets its final states as DaughtersDict objects which the caller then goes on editing (to derive the next mode from them)
+    given = {k: list(fs_orders.get(k, types[k][1])) for k in order}
+    _built[0] += 1
+    if _built[0] % 2:
+        return DecayChain(m, {k: DecayMode(types[k][0], given[k], model="PHSP") for k in order})
+    objs = {k: DaughtersDict(given[k]) for k in order}
+    dc = DecayChain(m, {k: DecayMode(types[k][0], objs[k], model="PHSP") for k in order})
+    for o in objs.values():
+        o["gamma"] += 1
+        o["<edited>"] = 2
+    return dc
 
 
 def check_case(ctx, case, workload):
@@ -113,7 +141,9 @@ def check_case(ctx, case, workload):
                     rejected_request()
                 return dc.to_string()
             before = dc.to_string() if first else None
-            fmt = DescriptorFormat(p1, p2)
+            if _built[0] % 3 == 0:
+                ctx.hit("format-through-a-subclass")
+            fmt = (_preset_class() if _built[0] % 3 == 0 else DescriptorFormat)(p1, p2)     # every third time through a user's subclass of DescriptorFormat
             with fmt:
                 if first and rng.random() < 0.3:
                     rejected_request()
